@@ -49,6 +49,10 @@ NextBinding(r, i, k, c) ==
           [] o.op = "put" -> IF o.st = "OK" THEN {o.v} ELSE {}
           [] o.op = "uput" -> IF o.st = "OK" /\ c = ABSENT THEN {o.v} ELSE IF o.st = "WARN_UNIQUE_RESTRICTION" /\ c # ABSENT THEN {c} ELSE {}
           [] o.op = "rem" -> IF o.st = "OK" /\ c # ABSENT THEN {ABSENT} ELSE IF o.st = "OK_NOT_FOUND" /\ c = ABSENT THEN {c} ELSE {}
+          \* storage directory operations (C13): create = unique insert of the name, delete = remove, find = lookup
+          [] o.op = "create" -> IF o.st = "OK" /\ c = ABSENT THEN {1} ELSE IF o.st = "WARN_UNIQUE_RESTRICTION" /\ c # ABSENT THEN {c} ELSE {}
+          [] o.op = "delete" -> IF o.st = "OK" /\ c # ABSENT THEN {ABSENT} ELSE IF o.st \in {"WARN_NOT_EXIST", "WARN_CONCURRENT_OPERATIONS"} /\ c = ABSENT THEN {c} ELSE {}
+          [] o.op = "find" -> IF (o.st = "OK" /\ c # ABSENT) \/ (o.st = "WARN_NOT_EXIST" /\ c = ABSENT) THEN {c} ELSE {}
           [] OTHER -> {}
 \* ---- per-run facts that need no search
 Ascending(tl) == \A i \in 1..(Len(tl) - 1) : LexLess(tl[i][1], tl[i + 1][1])
@@ -81,7 +85,10 @@ DNode(j) == IF j.t = "B" THEN
                parent |-> j.parent, ver |-> DVer(j)]
 DNodes(d) == Force([i \in 1..Len(d.nodes) |-> DNode(d.nodes[i])])
 PresentFinal(r) == SelectSeq(r.final, LAMBDA p : p[2] # ABSENT)
-QuiesFacts(r) == LET dn == DNodes(r.dump) dr == r.dump.root
+QuiesFacts(r) == IF r.dump.root = 0 THEN   \* no root at all (storage directory after the last delete / before the first create)
+                    [nodirty |-> TRUE, wellformed |-> TRUE, chain_eq_scan |-> Len(r.fscan) = 0, descent_eq_chain |-> \A i \in 1..Len(r.final) : r.final[i][2] = ABSENT]
+                 ELSE
+                 LET dn == DNodes(r.dump) dr == r.dump.root
                      lst == Listing(dn, dr)
                      pairs(s) == [i \in 1..Len(s) |-> <<s[i][1], s[i][2]>>] IN
                  [nodirty |-> \A i \in 1..Len(r.dump.nodes) : ~r.dump.nodes[i].ver.dirty,
